@@ -909,7 +909,7 @@ func execLine(line string, rounds int) []string {
 		}
 		copies, br := 12, 1
 		if rounds > 1000 { // thorough
-			br = 12
+			br = 8
 		}
 		return runBurst(pre, progs, callsOf(suf), copies, br)
 	}
